@@ -503,3 +503,61 @@ Fixpoint osp_run (fuel n k : nat) (sp : list nat * list nat) (pm : list nat * li
   end.
 Definition osp_iter (n k : nat) : list (list (list nat)) :=
   if n =? 0 then [] else osp_run (S (Nat.pow k n)) n k (sp_init n k) (pm_init k).
+
+(* ------------------------------------------------------------------ Coface_iterator::increment as a state machine
+   (the odometer over o_its_ with reinitialize(), then the next integer combination), giving the cofaces in the
+   order of enumeration.  An Ordered_set_partition_iterator state is (rgs_, max_) x (value_, d_, ct_).
+   [coface_choices_iter] lists the successive (integer combination, ordered set partitions) the iterator visits;
+   [coface_choices] is the set-level enumeration behind [cofaces]. *)
+Definition osp_state := ((list nat * list nat) * (list nat * list nat * nat))%type.
+Definition osp_fresh (n k : nat) : osp_state := (sp_init n k, pm_init k).
+Definition osp_cur (k : nat) (st : osp_state) : list (list nat) := osp_value k (fst (fst st)) (fst (fst (snd st))).
+(* ++it : Some = new state; None = reached the end, with the state reinitialize() would resume from *)
+Definition osp_incr (n k : nat) (st : osp_state) : option osp_state * osp_state :=
+  let '(sp, pm) := st in
+  match pm_next k pm with
+  | (Some pm', _) => (Some (sp, pm'), (sp, pm'))
+  | (None, pm_end) => match sp_next n k sp with
+                      | None => (None, (sp_init n k, pm_end))      (* reinitialize(): s_it_ reset, p_it_ flag only *)
+                      | Some sp' => (Some (sp', pm_end), (sp', pm_end))
+                      end
+  end.
+(* for (i = 0; i < k_+1; i++) if (++(o_its_[i]) != o_end_) break;   then  o_its_[j].reinitialize() for j < i *)
+Fixpoint odometer (sizes ks : list nat) (sts : list osp_state) : option (list osp_state) :=
+  match sizes, ks, sts with
+  | n :: sizes', k :: ks', st :: sts' =>
+    match osp_incr n k st with
+    | (Some st', _) => Some (st' :: sts')
+    | (None, st_re) => option_map (cons st_re) (odometer sizes' ks' sts')
+    end
+  | _, _, _ => None
+  end.
+Fixpoint coface_run_inner (fuel : nat) (sizes ks : list nat) (sts : list osp_state) : list (list (list (list nat))) :=
+  match fuel with
+  | O => []
+  | S f => map (fun p => osp_cur (fst p) (snd p)) (combine ks sts) ::
+           match odometer sizes ks sts with
+           | None => []
+           | Some sts' => coface_run_inner f sizes ks sts'
+           end
+  end.
+Definition coface_choices_iter (l : nat) (ps : opart) : list (list nat * list (list (list nat))) :=
+  let k := pred (length ps) in
+  let sizes := map (@length nat) ps in
+  flat_map (fun c => let ks := map S c in
+                     map (pair c) (coface_run_inner (S (fold_right Nat.mul 1 (map (fun nk => Nat.pow (snd nk) (fst nk)) (combine sizes ks))))
+                                                    sizes ks (map (fun nk => osp_fresh (fst nk) (snd nk)) (combine sizes ks))))
+           (int_combinations (l - k) (S k) (map (fun p => pred (length p)) ps)).
+Definition coface_choices (l : nat) (ps : opart) : list (list nat * list (list (list nat))) :=
+  let k := pred (length ps) in
+  flat_map (fun c => map (pair c) (product (map (fun h => osp (length (nth h ps [])) (S (nthn c h))) (seq 0 (S k)))))
+           (int_combinations (l - k) (S k) (map (fun p => pred (length p)) ps)).
+Definition cofaces_iter (l : nat) (s : simplex) : list simplex :=
+  let '(v, ps) := s in
+  let d := length v in
+  let k := pred (length ps) in
+  if l <? k then [] else
+  match find_pos d (nth k ps []) with
+  | None => []
+  | Some t => map (fun co => coface_value s t (fst co) (snd co)) (coface_choices_iter l ps)
+  end.
